@@ -41,7 +41,7 @@ def run(ctx):
                 "give a prefix of the full output. min-combination search: TLC enumerates vectors x intervals 0 <= a, b <= 8 and evaluates "
                 "the definition; results compared as sets with their sum")
     ctx.assumptions += ["keys sum and max stand for 'a key that never decreases when an element is appended'", "exploration level"]
-    k = {"MaxLen": 4 if quick else 6, "MaxW": 3 if not quick else 2, "MaxEnd": 9 if not quick else 6}
+    k = {"MaxLen": 5 if quick else 6, "MaxW": 3 if not quick else 2, "MaxEnd": 9 if not quick else 6}
     consts = model.constants_block(k)
     results, meta = [], []
     for n in range(0, k["MaxLen"] + 1):
